@@ -39,6 +39,13 @@ Programs3Fault ==
        i \in { <<{<<A1, "s.v">>}, {<<A1, "s.v">>}>>,       \* fork  a -> b, a -> c
                <<{}, {<<A2, "s.v">>}>> } }                  \* a alone, b -> c
 ProgramsChain == { p \in Programs3Focus : p.kind[A2] = "task" /\ p.kind[A3] = "task" /\ p.ins[A3] = {<<A2, "s.v">>} }   \* a -> b -> c, tasks
+(* an accumulator: the middle algorithm (two values here) reads the first one AND one of its own values.  (A self-reader
+   without any other input is not a root of the derived graph and vanishes from it altogether.) *)
+Programs3Self ==
+  { [kind |-> (A1 :> "task" @@ A2 :> "task" @@ A3 :> k3),
+     ins  |-> (A1 :> {} @@ A2 :> {<<A1, "s.v">>, <<A2, "s.w">>} @@ A3 :> i3),
+     vals |-> (A1 :> V(A1) @@ A2 :> {"s.v", "s.w"} @@ A3 :> V(A3))] :
+       k3 \in {"task", "analysis"}, i3 \in { {<<A2, "s.v">>}, {<<A2, "s.w">>}, {<<A1, "s.w">>} } }
 (* feedback: the chain / the fork, the first algorithm declares a value of the last one as feedback input *)
 Programs3Fb ==
   { [kind |-> (A1 :> "task" @@ A2 :> k2 @@ A3 :> "task"),
